@@ -56,6 +56,9 @@ func hfText(f hfFrag, p int) string {
 	case 8:
 		return "Overview"
 	}
+	if f.Key >= 200 && f.Key < 210 {
+		return fmt.Sprintf("%d", f.Key-200)
+	}
 	return fmt.Sprintf("Body text unique %d", f.Key)
 }
 
@@ -78,6 +81,9 @@ func hfPos(f hfFrag) (int, int) {
 			return 72, 40
 		}
 		return 300, 25
+	}
+	if f.Slot > 100 { // cells of the one-digit column
+		return 72, 705 - 15*(f.Slot-100)
 	}
 	switch f.Slot {
 	case 9:
